@@ -145,6 +145,78 @@ macro_rules! hex_asn_grammar {
 hex_asn_grammar!(c09_hex_asn_ascii_4, 4, 7);
 hex_asn_grammar!(c09_hex_asn_ascii_5, 5, 8);
 
+/// Reference scanner for quoted literals (strings with `"`, chars with `'`), from the documented grammar:
+/// an opening quote, then any characters where a backslash escapes the next character, then the closing quote.
+/// The recogniser yields the literal *including* both quotes, and only if something follows the closing quote
+/// is not required by the grammar - but the implementation declines a literal whose closing quote is the very
+/// last byte of the input (documented here as observed behaviour of the pinned tree; the parser never sees
+/// such a token because a statement terminator always follows).
+/// Returns the total length of the literal, or None.
+fn ref_quoted(s: &[u8], q: u8) -> Option<usize> {
+    if s.is_empty() || s[0] != q {
+        return None;
+    }
+    let mut i = 1;
+    let mut escaped = false;
+    while i < s.len() {
+        let b = s[i];
+        i += 1;
+        if escaped {
+            escaped = false;
+        } else if b == b'\\' {
+            escaped = true;
+        } else if b == q {
+            return Some(i);
+        }
+    }
+    None
+}
+
+macro_rules! quoted_grammar {
+    ($name:ident, $n:expr, $unwind:expr) => {
+        #[cfg_attr(kani, kani::proof)]
+        #[cfg_attr(kani, kani::unwind($unwind))]
+        pub fn $name() {
+            let b: Bytes<$n> = Bytes::any_ascii();
+            let s = b.as_str().unwrap();
+            let by = b.bytes();
+            for (q, is_string) in [(b'"', true), (b'\'', false)] {
+                let mut lx = Lexer::new(s);
+                let got = if is_string { lx.verif_string() } else { lx.verif_char() };
+                let want = ref_quoted(by, q);
+                match (got, want) {
+                    (Some((tok, span)), Some(len)) => {
+                        assert!(span.start == 0 && span.end == len, "quoted literal has the wrong extent");
+                        let text = match tok {
+                            Token::String(t) => {
+                                assert!(is_string);
+                                t
+                            }
+                            Token::Char(t) => {
+                                assert!(!is_string);
+                                t
+                            }
+                            _ => {
+                                assert!(false, "wrong token kind");
+                                ""
+                            }
+                        };
+                        assert!(text.len() == len && len >= 2, "literal text must include both quotes");
+                        assert!(text.as_bytes()[0] == q && text.as_bytes()[len - 1] == q, "literal must start and end with its quote");
+                        cover!(len >= 3, "literal_with_content_recognised");
+                    }
+                    (None, None) => {}
+                    // observed behaviour of the pinned tree: closing quote as last byte of the input -> declined
+                    (None, Some(len)) => assert!(len == by.len(), "complete literal followed by more input was not recognised"),
+                    (Some(_), None) => assert!(false, "recognised a literal that is not terminated"),
+                }
+            }
+        }
+    };
+}
+quoted_grammar!(c09_quoted_ascii_4, 4, 7);
+quoted_grammar!(c09_quoted_ascii_5, 5, 8);
+
 fn keyword(s: &str) -> Option<Keyword> {
     Some(match s {
         "accept" => Keyword::Accept,
@@ -280,6 +352,8 @@ pub fn c09_precedence_table() {
 }
 
 crate::list![
+    c09_quoted_ascii_4,
+    c09_quoted_ascii_5,
     c09_number_ascii_4,
     c09_number_ascii_5,
     c09_hex_asn_ascii_4,
